@@ -20,12 +20,16 @@ import (
 var c08Kinds = []string{"valid", "ping", "sopen", "smsg", "sclose"}
 var c08QuickVals = []int{0x00, 0x01, 0x7f, 0x80, 0xff, 0x08, 0x10, 0x55}
 
-const c08Positions = 96
+// byte positions that are enumerated (position mod frame length): 96 covers the short corpus
+// frames completely; the thorough tier also covers the frames with 140-byte fields
+var c08Positions uint64 = 96
 
 func c08Point(e uint64, thorough bool) (header string, op PuppetOp) {
 	nv := uint64(len(c08QuickVals))
+	c08Positions = 96
 	if thorough {
 		nv = 255
+		c08Positions = 224
 	}
 	per := uint64(len(c08Kinds))*c08Positions + uint64(len(c08Kinds))*c08Positions*nv + 256
 	header = headers[(e/per)%uint64(len(headers))]
@@ -103,9 +107,9 @@ func genC08(r *simrt.Rand, tier string, idx uint64) *Plan {
 			rep := PuppetReply{}
 			switch r.Intn(9) {
 			case 0, 1:
-				rep = PuppetReply{Mut: "trunc", Pos: r.Intn(c08Positions)}
+				rep = PuppetReply{Mut: "trunc", Pos: r.Intn(224)}
 			case 2, 3:
-				rep = PuppetReply{Mut: "flip", Pos: r.Intn(c08Positions), Val: r.Intn(256)}
+				rep = PuppetReply{Mut: "flip", Pos: r.Intn(224), Val: r.Intn(256)}
 			case 4:
 				rep = PuppetReply{Mut: "dup"}
 			case 5:
